@@ -114,3 +114,13 @@ def c17(tier, seed):
                                       "index; spaces: Box weights, Box with a cash entry, Box in numbers of contracts, Discrete"]
     run_models(rep, c17_models(tier), clauses_of("C17"))
     return rep.finish()
+
+
+def repro_models(tier):
+    """bar-shaped trading episodes with resets anywhere, delays and a malformed action (an episode ended by an error)"""
+    n = 4
+    cs = bar_candidates(n)
+    bads = [(0, "ok"), (2, "nan")]
+    return [env_model("trade-resets", G[:n], cs, range(1, n + 1), 1, [0, L], [FOLD_ALL, (G[1], G[3])], [(False, -1), (True, -1)],
+                      delays=(0, 1), spaces=("box", "discrete"), bads=bads, maxcalls=5, reset_anywhere=True, trade=True,
+                      invariants=["FifoDelay", "ExactlyOnce"])]
